@@ -517,9 +517,17 @@ impl Space for Families {
                         what: format!("time blow-up on hostile shape {}", f.name),
                         case: format!("family {} size {}\n{}", f.name, n, crate::engine::sink::truncate(&text, 400)),
                         expected: format!("time polynomial in the input length (soft cap {} s)", self.soft_cap),
-                        observed: format!("size {} took {:.3} s; size {} took {:.6} s (x{:.1}; cheapest of three runs against the dearest)", n, dt, pn, pt, if pt > 0.0 { dt / pt } else { f64::INFINITY }),
+                        observed: format!("size {} took {:.3} s; size {} took {:.6} s (x{:.1}; medians of three runs)", n, dt, pn, pt, if pt > 0.0 { dt / pt } else { f64::INFINITY }),
                     }),
-                    None => sink.note("family-capped", &format!("{}@{} {:.2}s (previous {}: {:.2}s)", f.name, n, dt, pn, pt)),
+                    None => {
+                        sink.note("family-capped", &format!("{}@{} {:.2}s (previous {}: {:.2}s)", f.name, n, dt, pn, pt));
+                        // over the cap without a verdict: the next members decide (a super-polynomial family keeps growing), up to
+                        // four caps
+                        if step_family && dt <= 4.0 * self.soft_cap {
+                            prev = Some((n, dt));
+                            continue;
+                        }
+                    }
                 }
                 return;
             }
